@@ -31,14 +31,17 @@ CONSTANTS LabelIds, Vals, MaxRows, MaxChunks, KernelSet, MaskKinds, Reps, SortCh
           MergeNoCount,        \* deviation: merge without the accumulated count
           PosAsSet,            \* deviation (what the code does): positional mask on chunked keys -> boolean set
           MaxCalls,            \* calls on one grouping object (1: a single call; 2: representation changes in between)
-          UnifyWrapsNull       \* deviation D6: unification maps the null code through p[-1] (the chunk's last pointer entry)
+          UnifyWrapsNull,      \* deviation D6: unification maps the null code through p[-1] (the chunk's last pointer entry)
+          NoNullSlot           \* deviation: the merged array has no trailing slot for the null code, so transform=True
+                               \* gives a null-key row the LAST group's value (combined[-1])
 
 VARIABLES kernel, keys, vals, klens, rep, mask,      \* the call (constant after Init)
           pc, ldict, lcodes, labels, ptr,            \* the grouping
           first, pieces,                             \* mask resolution
           partial, todo, combined, nmerged, oob,     \* reduction
-          calls                                      \* completed calls on this object
-hvars == <<kernel, keys, vals, klens, rep, mask, calls>>
+          calls,                                     \* completed calls on this object
+          tout                                       \* transform=True: the per-row broadcast of the merged result (<<>>: none yet)
+hvars == <<kernel, keys, vals, klens, rep, mask, calls, tout>>
 gvars == <<ldict, lcodes, labels, ptr>>
 vars == <<hvars, gvars, pc, first, pieces, partial, todo, combined, nmerged, oob>>
 
@@ -115,8 +118,11 @@ FirstChunkIn(start) ==
 
 WholePieces == [c \in 1..Len(klens) |-> [src |-> c, lo |-> Off(c) + 1, hi |-> Off(c) + klens[c]]]
 
+IsPos == mask.k = "pos" /\ ~PosAsSet
+(* _unify_chunks_for_positional_mask: a chunked code array cannot be indexed by positions, so it is unified first *)
+NeedsUnifyForPositions == IsPos /\ (Len(klens) > 1 \/ rep = "pointers")
 Resolve ==
-  /\ pc = "resolve"
+  /\ pc = "resolve" /\ ~NeedsUnifyForPositions
   /\ IF mask.k = "slice"
      THEN LET a == ClampLo(IF mask.s[1] = None THEN 0 ELSE mask.s[1], N)
               b == ClampLo(IF mask.s[2] = None THEN N ELSE mask.s[2], N)
@@ -148,12 +154,21 @@ RECURSIVE PieceFoldLabel(_, _, _, _)
 PieceFoldLabel(p, lab, r, acc) == \* the same fold, by label: what the piece's partial for `lab` must be
   IF r > p.hi THEN acc
   ELSE PieceFoldLabel(p, lab, r + 1, IF RowSelected(r) /\ keys[r] = lab THEN Step(kernel, acc, vals[r]) ELSE acc)
+(* integer positions (repeats, any order): the chunks were unified first (UnifyForPositions), the single piece is folded   *)
+(* over the positions in the order given -- array indexing semantics                                                    *)
+RECURSIVE PosFold(_, _, _)
+PosFold(g, j, acc) == IF j > Len(Sel0(N, mask)) THEN acc
+  ELSE LET r == Sel0(N, mask)[j] + 1 IN PosFold(g, j + 1, IF lcodes[1][r] = g - 1 THEN Step(kernel, acc, vals[r]) ELSE acc)
+RECURSIVE PosFoldLabel(_, _, _)
+PosFoldLabel(lab, j, acc) == IF j > Len(Sel0(N, mask)) THEN acc
+  ELSE LET r == Sel0(N, mask)[j] + 1 IN PosFoldLabel(lab, j + 1, IF keys[r] = lab THEN Step(kernel, acc, vals[r]) ELSE acc)
 PieceOOB(i) == PtrIdx(i) > Len(ptr) \/ \E r \in pieces[i].lo..pieces[i].hi : RowSelected(r) /\ CodeAt(pieces[i], r) >= Len(PtrOf(i))
 
 ChunkReduce(i) ==
   /\ pc = "reduce" /\ i \in todo
   /\ AnyOrder \/ \A j \in todo : i <= j
-  /\ partial' = [partial EXCEPT ![i] = [g \in 1..Len(PtrOf(i)) |-> PieceFold(pieces[i], g, pieces[i].lo, EmptyP(kernel))]]
+  /\ partial' = [partial EXCEPT ![i] = [g \in 1..Len(PtrOf(i)) |->
+                     IF IsPos THEN PosFold(g, 1, EmptyP(kernel)) ELSE PieceFold(pieces[i], g, pieces[i].lo, EmptyP(kernel))]]
   /\ oob' = (oob \/ PieceOOB(i))
   /\ todo' = todo \ {i}
   /\ pc' = IF todo' = {} THEN "merge" ELSE "reduce"
@@ -187,7 +202,7 @@ MasksOf(n) ==
   (IF "none" \in MaskKinds THEN {[k |-> "none"]} ELSE {})
   \cup (IF "bool" \in MaskKinds THEN {[k |-> "bool", b |-> b] : b \in SeqsOver({0, 1}, n)} ELSE {})
   \cup (IF "slice" \in MaskKinds THEN {[k |-> "slice", s |-> <<a, b, None>>] : a \in Bounds(n), b \in Bounds(n)} ELSE {})
-  \cup (IF "pos" \in MaskKinds /\ PosAsSet THEN {[k |-> "pos", p |-> p] : p \in UNION {SeqsOver(-n..(n - 1), m) : m \in 0..2}} ELSE {})
+  \cup (IF "pos" \in MaskKinds THEN {[k |-> "pos", p |-> p] : p \in UNION {SeqsOver(-n..(n - 1), m) : m \in 0..2}} ELSE {})
 
 -----------------------------------------------------------------------------
 (* ---- the object is reused: _unify_group_key_chunks between calls (C13 with data) ------------------------------- *)
@@ -212,16 +227,31 @@ Unify(keep) ==
           /\ klens' = <<N>>
   /\ rep' = "global"
   /\ partial' = [i \in 1..Len(pieces) |-> <<>>]          \* (the partial arrays of the finished call are gone)
-  /\ UNCHANGED <<kernel, keys, vals, mask, calls, labels, pc, first, pieces, todo, combined, nmerged, oob>>
+  /\ UNCHANGED <<kernel, keys, vals, mask, calls, tout, labels, pc, first, pieces, todo, combined, nmerged, oob>>
+UnifyForPositions ==
+  /\ pc = "resolve" /\ NeedsUnifyForPositions
+  /\ lcodes' = <<CatCodes(1)>> /\ ptr' = <<[g \in 1..Len(labels) |-> g]>> /\ ldict' = <<labels>> /\ klens' = <<N>> /\ rep' = "global"
+  /\ UNCHANGED <<kernel, keys, vals, mask, calls, tout, labels, pc, first, pieces, partial, todo, combined, nmerged, oob>>
+(* transform=True: the chunks are unified to one array of global codes and the merged per-group results are read back  *)
+(* row by row; the merged array carries one trailing slot that the null code (-1) selects: the neutral result         *)
+Neutral == ResultOf(kernel, EmptyP(kernel))
+Broadcast ==
+  /\ pc = "done" /\ tout = <<>> /\ N > 0
+  /\ LET codes == CatCodes(1) IN
+     tout' = [r \in 1..N |->
+                IF codes[r] >= 0 THEN ResultOf(kernel, combined[codes[r] + 1])
+                ELSE IF NoNullSlot /\ Len(labels) > 0 THEN ResultOf(kernel, combined[Len(labels)]) ELSE Neutral]
+  /\ UNCHANGED <<kernel, keys, vals, klens, rep, mask, calls, gvars, pc, first, pieces, partial, todo, combined, nmerged, oob>>
+
 (* the next call on the same object: another reduction, another mask *)
 NextCall ==
   /\ pc = "done" /\ calls < MaxCalls
   /\ kernel' \in KernelSet /\ mask' \in MasksOf(N)
-  /\ calls' = calls + 1
+  /\ calls' = calls + 1 /\ tout' = <<>>
   /\ pc' = "resolve"
   /\ UNCHANGED <<keys, vals, klens, rep, gvars, first, pieces, partial, todo, combined, nmerged, oob>>
 
-Next == Factorize \/ Resolve \/ (\E i \in 1..MaxChunks : ChunkReduce(i)) \/ MergePiece \/ (\E keep \in BOOLEAN : Unify(keep)) \/ NextCall
+Next == Factorize \/ Resolve \/ (\E i \in 1..MaxChunks : ChunkReduce(i)) \/ MergePiece \/ (\E keep \in BOOLEAN : Unify(keep)) \/ UnifyForPositions \/ Broadcast \/ NextCall
 
 Init0 ==
   /\ kernel \in KernelSet
@@ -234,7 +264,7 @@ Init0 ==
   /\ pc = "start"
   /\ ldict = <<>> /\ lcodes = <<>> /\ labels = <<>> /\ ptr = <<>>
   /\ first = 0 /\ pieces = <<>> /\ partial = <<>> /\ todo = {} /\ combined = <<>> /\ nmerged = 0 /\ oob = FALSE
-  /\ calls = 1
+  /\ calls = 1 /\ tout = <<>>
 Spec == Init0 /\ [][Next]_vars
 
 -----------------------------------------------------------------------------
@@ -254,7 +284,8 @@ NoOutOfBounds == ~oob
 (* every piece partial is the fold of the piece's selected rows carrying that label *)
 PartialIsPieceDef == \A i \in 1..Len(pieces) : (i \notin todo /\ pc \in {"reduce", "merge", "done"} /\ partial[i] # <<>>) =>
   \A g \in 1..Len(partial[i]) :
-     partial[i][g] = PieceFoldLabel(pieces[i], ldict[pieces[i].src][g], pieces[i].lo, EmptyP(kernel))
+     partial[i][g] = (IF IsPos THEN PosFoldLabel(ldict[pieces[i].src][g], 1, EmptyP(kernel))
+                      ELSE PieceFoldLabel(pieces[i], ldict[pieces[i].src][g], pieces[i].lo, EmptyP(kernel)))
 (* the pieces are exactly the selected rows, in order (Arrow's slice = the slice) *)
 PiecesAreSlice == (pc \in {"reduce", "merge", "done"} /\ mask.k = "slice") =>
   Cat([i \in 1..Len(pieces) |-> [r \in 1..(pieces[i].hi - pieces[i].lo + 1) |-> pieces[i].lo + r - 2]], 1) = SelRows
@@ -263,5 +294,9 @@ LogicalCodesIntact == pc # "start" =>
   \A c \in 1..Len(klens) : \A r \in 1..klens[c] :
      LET k == lcodes[c][r] IN
      IF keys[Off(c) + r] = Null THEN k = -1 ELSE (k >= 0 /\ k < Len(ptr[c]) /\ labels[ptr[c][k + 1]] = keys[Off(c) + r])
+(* C07: with transform=True every row carries its group's result; null-key rows (and rows of groups without a selected *)
+(* row) carry the neutral result                                                                                        *)
+TransformIsDef == tout # <<>> =>
+  \A r \in 1..N : tout[r] = (IF keys[r] = Null THEN Neutral ELSE Def(kernel, GroupVals(keys[r])))
 LabelsAreKeys == pc # "start" => {labels[g] : g \in 1..Len(labels)} = {keys[i] : i \in 1..N} \ {Null}
 =============================================================================
